@@ -328,6 +328,28 @@ def facts_vmdk_file(rng):
         shutil.rmtree(d, ignore_errors=True)
 
 
+def facts_parents(rng):
+    """The stored parent reference leads to the parent it names: locator paths with `..\\` and sibling directories (VHDX), hints in
+    Windows spelling (`C:\\vms\\dir\\name`) for descriptor and monolithic VMDK children, absolute paths of moved Parallels disks."""
+    import importlib
+    c07 = importlib.import_module("props.c07")
+    work = tempfile.mkdtemp(prefix="verif-c14r-")
+    f = []
+    try:
+        for fmt, fn, ncand, kw in (("vhdx", c07.res_vhdx, 2, {"via": rng.choice(["path", "str", "named-handle"])}), ("vmdk", c07.res_vmdk, 2, {}),
+                                   ("vmdk-embedded", c07.res_vmdk_embedded, 2, {"via": "path"}), ("hdd", c07.res_hdd, 4, {})):
+            k = rng.randrange(ncand)
+            fs = [j == k for j in range(ncand)]          # exactly one candidate location holds the parent
+            try:
+                got = fn(fs, work, **kw)
+            except Exception as e:  # noqa: BLE001
+                got = f"raised {type(e).__name__}"
+            f.append([f"{fmt}.parent-found-at-candidate", k + 1, got])
+        return f
+    finally:
+        shutil.rmtree(work, ignore_errors=True)
+
+
 def facts_parallels(rng):
     from dissect.hypervisor.disk.hdd import Descriptor
     d = tempfile.mkdtemp(prefix="verif-c14p-")
@@ -355,8 +377,21 @@ def facts_parallels(rng):
         for k, (st, want) in enumerate(zip(desc.storage_data.storages, storages)):
             f.append([f"storage{k}", repr((want[0], want[1], [(g.strip("{}"), t, fn) for g, t, fn in want[2]])),
                       repr((st.start, st.end, [(str(i.guid), i.type, i.file) for i in st.images]))])
-        # the assembled stream of a small split plain disk listed out of order reports the sum of its storages
+        # the chain of every snapshot (it up to the base), asked twice, and again after the directory object was asked to open the disk
+        # (the image files are not there: the attempts fail, what the descriptor exposes stays)
         from dissect.hypervisor.disk.hdd import HDD
+        want_chain = {g: [x.strip("{}") for x in guids[k:]] for k, g in enumerate(guids)}
+        for rnd in (1, 2):
+            f.append([f"chains.{rnd}", repr(want_chain), repr({g: [str(x) for x in desc.get_snapshot_chain(uuid.UUID(g.strip("{}")))] for g in guids})])
+        hobj = HDD(Path(p))
+        for g in [None] + guids + guids[:1]:
+            try:
+                hobj.open(g.strip("{}") if g else None)
+            except Exception:  # noqa: BLE001
+                pass
+        f.append(["chains.after-open", repr(want_chain), repr({g: [str(x) for x in hobj.descriptor.get_snapshot_chain(uuid.UUID(g.strip("{}")))] for g in guids})])
+        f.append(["shots.after-open", repr([(a.strip("{}"), b.strip("{}")) for a, b in shots]), repr([(str(s.guid), str(s.parent)) for s in hobj.descriptor.snapshots.shots])])
+        # the assembled stream of a small split plain disk listed out of order reports the sum of its storages
         hd = os.path.join(d, "s.hdd")
         os.makedirs(hd)
         sizes = [rng.choice([8, 16, 24]) for _ in range(rng.choice([2, 3, 4]))]
@@ -408,7 +443,7 @@ def facts_qcow2(rng):
     return f
 
 
-FACTS = {"vdi": facts_vdi, "vhd": facts_vhd, "hds": facts_hds, "vhdx": facts_vhdx, "vmdk": facts_vmdk, "vmdk-file": facts_vmdk_file, "parallels": facts_parallels,
+FACTS = {"vdi": facts_vdi, "vhd": facts_vhd, "hds": facts_hds, "vhdx": facts_vhdx, "vmdk": facts_vmdk, "vmdk-file": facts_vmdk_file, "parents": facts_parents, "parallels": facts_parallels,
          "qcow2": facts_qcow2}
 
 
